@@ -9,8 +9,39 @@ sees them); `g (groupOf rows r)` is therefore "the base metric of the group of `
 from the rows", `g (slice rows)` the base metric of the whole data.  All theorems hold for EVERY
 dataset with at least one row, any number of groups of any sizes (single-member groups included),
 one or more sensitive feature columns, any positive weights.
+
+CLAUSE → THEOREM TABLE (review R1).  Standing hypotheses = the property's quantifier: `Valid nsf rows` (≥ 1 row,
+≥ 1 sensitive column, weights > 0; no weights = all 1) and, for the confusion-matrix rates, `BinaryRows rows`.
+  rates "directly from the rows" (specification side = `wsum` quotients, `Model/Fairness.lean` + `Lemmas/C03Review.lean`;
+  model side = `MetricPool.eval`, for TPR/FPR/TNR/FNR through the `BaseMetrics` model of sklearn's normalised confusion
+  matrix — two different definitions, the theorems are not `f = f`):
+      selection_rate_eq_spec, true_positive_rate_eq_spec, false_positive_rate_eq_spec, finiteOn_of_spec (all 10 modelled
+      bases: + TNR, FNR, accuracy, zero-one loss, MAE, MSE, mean prediction); the group values the aggregates see are
+      exactly {rate(group of r) : r ∈ rows}: group_values
+  demographic_parity_difference   between_groups: dp_difference_eq_spec      to_overall: dp_difference_overall_eq_spec
+  demographic_parity_ratio        between_groups: dp_ratio_eq_spec           to_overall: dp_ratio_overall_eq_spec (overall ≠ 0),
+                                                                             ratio_overall_nan_of_all_zero (overall = 0: NaN)
+  equal_opportunity_difference    eopp_difference_eq_spec                    eopp_difference_overall_eq_spec
+  equal_opportunity_ratio         eopp_ratio_eq_spec                         eopp_ratio_overall_eq_spec (overall TPR ≠ 0)
+  equalized_odds_difference       eodds_difference_eq_spec (worst case AND mean)   eodds_difference_overall_eq_spec
+  equalized_odds_ratio            eodds_ratio_eq_spec (both ratios defined)  any method / NaN / ±inf operands: eodds_general
+  "worst case or mean as requested"  eodds_def, pyFold_max_pair / pyFold_min_pair / meanSkip_pair, worst_case_bounds
+  every generated <metric>_{difference,ratio,group_min,group_max}:
+      generated_family (EVERY entry of the lifted METRICS_SPEC with a modelled base is the MetricFrame aggregate its name
+      says), generated_eq_spec (… hence the first-principles value, all four variants, both methods), generated_table_facts,
+      metrics_spec_wellformed; coverage statement generated_bases: 18 of the 25 functions (9 of 16 bases).
+      PARTIAL BY DESIGN: the 7 functions over sklearn-only scores (balanced_accuracy, precision, recall, roc_auc, r2, f1,
+      log_loss; all group_min/group_max) have NO theorem (`generated … = some none`); they are checked only by the
+      correspondence harness against sklearn evaluated on first-principles slices.
+  single-member groups / empty denominators   all theorems quantify over arbitrary `rows`; tpr_zero_of_no_positive; the
+      `if … = 0 then 0` branch of tprSpec/fprSpec/tnrSpec/fnrSpec; examples exF1 (weighted single-row group), exEO
+  make_derived_metric = the equivalent MetricFrame call   derived_eq_metricframe, derived_eq, derived_finish_eq,
+      derived_make_eq / _ok_iff / _fails, derived_route, derived_bad_method, derived_nameless_ok,
+      derived_call_eq_finish (the whole __call__: routing of sample_weight / method, then the MetricFrame call)
+Consistency corollaries (C03X.lean): eodds_ge_eopp, dp_ratio_one_iff_difference_zero, dp_ranges, eopp_eodds_ranges.
 -/
 import FairModel.Lemmas.Fairness
+import FairModel.Lemmas.C03Review
 import FairModel.Model.Derived
 
 namespace C03
@@ -651,6 +682,283 @@ theorem true_positive_rate_ratio_eq_eopp (meth : Method) (nsf : Nat) (rows : Lis
   rw [g1]
   simp only [Option.bind_eq_bind, Option.bind_some, g2, g3, g4, Option.pure_def]
 
+/-! ## Review additions (R1)
+
+### the WHOLE generated family `<metric>_{difference,ratio,group_min,group_max}`, from the lifted table
+
+`generatedNames` is computed from the lifted `METRICS_SPEC`; the theorems below quantify over ALL its
+entries whose base metric the model can evaluate (9 of 16 bases, 18 of 25 functions: `generated_bases`),
+instead of naming two of them. -/
+
+/-- first-principles definition of every base metric of the model that occurs in `METRICS_SPEC` -/
+def specOf : Metric → Option (List Dat → Rat)
+  | .selrate => some selRateSpec
+  | .tpr => some tprSpec | .fpr => some fprSpec | .tnr => some tnrSpec | .fnr => some fnrSpec
+  | .accuracy => some accuracySpec | .zeroOne => some zeroOneSpec
+  | .mae => some maeSpec | .mse => some mseSpec
+  | .meanpred => some meanPredictionSpec
+  | _ => none
+
+/-- on valid binary data every such base metric returns its first-principles value on EVERY non-empty
+    slice (each group, single-member groups, the whole data) -/
+theorem finiteOn_of_spec {m : Metric} {sp : List Dat → Rat} {nsf : Nat} {rows : List (Row Dat)}
+    (hv : Valid nsf rows) (hb : BinaryRows rows) (hs : specOf m = some sp) :
+    FiniteOn (eval m) sp rows := by
+  have hw : ∀ ds : List Dat, (∀ d ∈ ds, ∃ r ∈ rows, r.dat = d) → ∀ d ∈ ds, 0 < d.p0 := by
+    intro ds hsub d hd
+    obtain ⟨r, hr, rfl⟩ := hsub d hd
+    exact hv.wpos r hr
+  cases m <;> simp only [specOf, Option.some.injEq, reduceCtorEq] at hs <;> subst hs
+  · exact selrate_finiteOn hv
+  · exact tpr_finiteOn hb
+  · exact fpr_finiteOn hb
+  · exact fun _ hne hsub => tnr_eq_spec (binary_of_sub hb hsub) hne
+  · exact fun _ hne hsub => fnr_eq_spec (binary_of_sub hb hsub) hne
+  · exact fun ds hne hsub => meanpred_eq_spec (hw ds hsub) hne
+  · exact fun ds hne hsub => accuracy_eq_spec (hw ds hsub) hne
+  · exact fun ds hne hsub => zeroOne_eq_spec (hw ds hsub) hne
+  · exact fun ds hne hsub => mae_eq_spec (hw ds hsub) hne
+  · exact fun ds hne hsub => mse_eq_spec (hw ds hsub) hne
+
+/-- what the property says each variant is: the MetricFrame method, and whether `method=` reaches it -/
+def variantSpec : String → Option (AggKind × Bool)
+  | "difference" => some (.difference, true)
+  | "ratio" => some (.ratio, true)
+  | "group_min" => some (.groupMin, false)
+  | "group_max" => some (.groupMax, false)
+  | _ => none
+
+/-- `_DerivedMetric.__call__` as a function of the lifted dispatch table -/
+theorem derived_eq (m : Metric) (t : String) (meth : Method) (nsf : Nat) (rows : List (Row Dat)) :
+    derived m t meth nsf rows =
+      ((FairnessSpec.dispatch.find? (fun d => d.1 == t)).bind
+        (fun d => (aggOfName d.2.1).map (fun k => (k, d.2.2)))).map
+        (fun kb => run m kb.1 meth kb.2 nsf rows) := by
+  unfold derived
+  cases FairnessSpec.dispatch.find? (fun d => d.1 == t) with
+  | none => rfl
+  | some d => cases h : aggOfName d.2.1 <;> simp [h]
+
+/-- facts about the LIFTED tables, checked entry by entry (finite tables; re-checked on every run):
+    every generated name is found as itself, and the lifted dispatch sends its variant to the MetricFrame
+    method `variantSpec` says -/
+theorem generated_table_facts :
+    ∀ g ∈ generatedNames,
+      generatedNames.find? (fun x => x.1 == g.1) = some g ∧
+      (FairnessSpec.dispatch.find? (fun d => d.1 == g.2.2)).bind
+        (fun d => (aggOfName d.2.1).map (fun k => (k, d.2.2))) = variantSpec g.2.2 ∧
+      (variantSpec g.2.2).isSome = true := by
+  decide +kernel
+
+/-- EVERY generated function whose base metric is in the model is the MetricFrame aggregate its name
+    says, of the frame of its base metric: for all datasets, both `method` values -/
+theorem generated_family (g : String × String × String) (hg : g ∈ generatedNames) (m : Metric)
+    (hm : baseOfName g.2.1 = some m) (meth : Method) (nsf : Nat) (rows : List (Row Dat)) :
+    ∃ k b, variantSpec g.2.2 = some (k, b) ∧
+      generated g.1 meth nsf rows = some (some (run m k meth b nsf rows)) := by
+  obtain ⟨h1, h2, h3⟩ := generated_table_facts g hg
+  obtain ⟨⟨k, b⟩, hkb⟩ := Option.isSome_iff_exists.mp h3
+  refine ⟨k, b, hkb, ?_⟩
+  unfold generated
+  rw [h1]
+  simp only [Option.bind_eq_bind, Option.bind_some, hm, Option.pure_def]
+  rw [derived_eq, h2, hkb]
+  rfl
+
+/-- … and hence returns the value obtained by computing the base metric of each group DIRECTLY FROM THE
+    ROWS (`sp`, the first-principles definition) and applying min / max / max−min / min÷max or their
+    to_overall variants — the clause of the property for the whole generated family. -/
+theorem generated_eq_spec (g : String × String × String) (hg : g ∈ generatedNames) (m : Metric)
+    (hm : baseOfName g.2.1 = some m) (sp : List Dat → Rat) (hsp : specOf m = some sp)
+    (nsf : Nat) (rows : List (Row Dat)) (hv : Valid nsf rows) (hb : BinaryRows rows) :
+    (g.2.2 = "group_min" → ∀ meth, ∃ mn, IsGroupMin sp rows mn ∧
+        generated g.1 meth nsf rows = some (some (.value (fin mn)))) ∧
+    (g.2.2 = "group_max" → ∀ meth, ∃ mx, IsGroupMax sp rows mx ∧
+        generated g.1 meth nsf rows = some (some (.value (fin mx)))) ∧
+    (g.2.2 = "difference" →
+        (∃ mn mx, IsGroupMin sp rows mn ∧ IsGroupMax sp rows mx ∧
+          generated g.1 .between nsf rows = some (some (.value (fin (mx - mn))))) ∧
+        (∃ D, generated g.1 .toOverall nsf rows = some (some (.value (fin D))) ∧
+          (∃ r ∈ rows, D = |sp (groupOf rows r) - sp (slice rows)|) ∧
+          ∀ r ∈ rows, |sp (groupOf rows r) - sp (slice rows)| ≤ D)) ∧
+    (g.2.2 = "ratio" →
+        (∃ mn mx, IsGroupMin sp rows mn ∧ IsGroupMax sp rows mx ∧
+          generated g.1 .between nsf rows = some (some (.value (XR.div (fin mn) (fin mx))))) ∧
+        (sp (slice rows) ≠ 0 → ∃ ρ, generated g.1 .toOverall nsf rows = some (some (.value (fin ρ))) ∧
+          (∃ r ∈ rows, ρ = subOne (sp (groupOf rows r) / sp (slice rows))) ∧
+          ∀ r ∈ rows, ρ ≤ subOne (sp (groupOf rows r) / sp (slice rows)))) := by
+  have hf := finiteOn_of_spec hv hb hsp
+  have fam := fun meth => generated_family g hg m hm meth nsf rows
+  refine ⟨?_, ?_, ?_, ?_⟩
+  · intro ht meth
+    obtain ⟨k, b, hk, hgen⟩ := fam meth
+    rw [ht] at hk; simp only [variantSpec, Option.some.injEq, Prod.mk.injEq] at hk
+    obtain ⟨rfl, rfl⟩ := hk
+    obtain ⟨mn, h1, h2⟩ := group_min_spec hv hf .between
+    exact ⟨mn, h1, by rw [hgen, (run_group_method_irrelevant m meth false nsf rows).1, h2]⟩
+  · intro ht meth
+    obtain ⟨k, b, hk, hgen⟩ := fam meth
+    rw [ht] at hk; simp only [variantSpec, Option.some.injEq, Prod.mk.injEq] at hk
+    obtain ⟨rfl, rfl⟩ := hk
+    obtain ⟨mx, h1, h2⟩ := group_max_spec hv hf .between
+    exact ⟨mx, h1, by rw [hgen, (run_group_method_irrelevant m meth false nsf rows).2, h2]⟩
+  · intro ht
+    constructor
+    · obtain ⟨k, b, hk, hgen⟩ := fam .between
+      rw [ht] at hk; simp only [variantSpec, Option.some.injEq, Prod.mk.injEq] at hk
+      obtain ⟨rfl, rfl⟩ := hk
+      obtain ⟨mn, mx, h1, h2, h3⟩ := difference_between_spec hv hf
+      exact ⟨mn, mx, h1, h2, by rw [hgen, h3]⟩
+    · obtain ⟨k, b, hk, hgen⟩ := fam .toOverall
+      rw [ht] at hk; simp only [variantSpec, Option.some.injEq, Prod.mk.injEq] at hk
+      obtain ⟨rfl, rfl⟩ := hk
+      obtain ⟨D, h1, h2, h3⟩ := difference_overall_spec hv hf
+      exact ⟨D, by rw [hgen, h1], h2, h3⟩
+  · intro ht
+    constructor
+    · obtain ⟨k, b, hk, hgen⟩ := fam .between
+      rw [ht] at hk; simp only [variantSpec, Option.some.injEq, Prod.mk.injEq] at hk
+      obtain ⟨rfl, rfl⟩ := hk
+      obtain ⟨mn, mx, h1, h2, h3⟩ := ratio_between_spec hv hf
+      exact ⟨mn, mx, h1, h2, by rw [hgen, h3]⟩
+    · intro ho
+      obtain ⟨k, b, hk, hgen⟩ := fam .toOverall
+      rw [ht] at hk; simp only [variantSpec, Option.some.injEq, Prod.mk.injEq] at hk
+      obtain ⟨rfl, rfl⟩ := hk
+      obtain ⟨ρ, h1, h2, h3⟩ := ratio_overall_spec hv hf ho
+      exact ⟨ρ, by rw [hgen, h1], h2, h3⟩
+
+/-- coverage of the lifted `METRICS_SPEC` by the model: 9 base metrics (18 generated functions) are
+    evaluated by the model and each has a first-principles definition in `specOf`; the other 7 bases
+    (7 functions, all `group_min` / `group_max` of sklearn-only scores) are OUTSIDE the Lean model
+    (`generated … = some none`): for them the property is checked only by the correspondence harness
+    against sklearn on first-principles slices. -/
+theorem generated_bases :
+    (FairnessSpec.metricsSpec.filter (fun e => (baseOfName e.1).isSome)).map (·.1) =
+      ["true_positive_rate", "true_negative_rate", "false_positive_rate", "false_negative_rate",
+       "selection_rate", "accuracy_score", "zero_one_loss", "mean_absolute_error", "mean_squared_error"] ∧
+    (FairnessSpec.metricsSpec.filter (fun e => !(baseOfName e.1).isSome)).map (·.1) =
+      ["balanced_accuracy_score", "precision_score", "recall_score", "roc_auc_score", "r2_score",
+       "f1_score", "log_loss"] ∧
+    (∀ e ∈ FairnessSpec.metricsSpec, ∀ m, baseOfName e.1 = some m → (specOf m).isSome = true) ∧
+    generatedNames.length = 25 ∧
+    (generatedNames.filter (fun g => (baseOfName g.2.1).isSome)).length = 18 := by
+  refine ⟨by decide +kernel, by decide +kernel, ?_, by decide +kernel, by decide +kernel⟩
+  intro e he m hm
+  have : ∀ e ∈ FairnessSpec.metricsSpec, (match baseOfName e.1 with | some m => (specOf m).isSome | none => true) = true := by
+    decide +kernel
+  have h := this e he
+  rw [hm] at h
+  exact h
+
+/-! ### equal opportunity / equalized odds with `method="to_overall"`, and the zero-overall ratio branch -/
+
+theorem eopp_difference_overall_eq_spec (nsf : Nat) (rows : List (Row Dat)) (hv : Valid nsf rows)
+    (hb : BinaryRows rows) :
+    ∃ D, named "equal_opportunity_difference" .toOverall nsf rows = some (.value (fin D)) ∧
+      (∃ r ∈ rows, D = |tprSpec (groupOf rows r) - tprSpec (slice rows)|) ∧
+      ∀ r ∈ rows, |tprSpec (groupOf rows r) - tprSpec (slice rows)| ≤ D := by
+  obtain ⟨D, h1, h2, h3⟩ := difference_overall_spec hv (tpr_finiteOn hb)
+  exact ⟨D, by rw [equal_opportunity_difference_def, h1], h2, h3⟩
+
+theorem eopp_ratio_overall_eq_spec (nsf : Nat) (rows : List (Row Dat)) (hv : Valid nsf rows)
+    (hb : BinaryRows rows) (ho : tprSpec (slice rows) ≠ 0) :
+    ∃ ρ, named "equal_opportunity_ratio" .toOverall nsf rows = some (.value (fin ρ)) ∧
+      (∃ r ∈ rows, ρ = subOne (tprSpec (groupOf rows r) / tprSpec (slice rows))) ∧
+      ∀ r ∈ rows, ρ ≤ subOne (tprSpec (groupOf rows r) / tprSpec (slice rows)) := by
+  obtain ⟨ρ, h1, h2, h3⟩ := ratio_overall_spec hv (tpr_finiteOn hb) ho
+  exact ⟨ρ, by rw [equal_opportunity_ratio_def, h1], h2, h3⟩
+
+/-- equalized odds difference, `method="to_overall"`: worst case = the larger, mean = the average of the
+    TPR and FPR to_overall differences, each the largest |group rate − rate on all rows| -/
+theorem eodds_difference_overall_eq_spec (agg : Agg) (nsf : Nat) (rows : List (Row Dat)) (hv : Valid nsf rows)
+    (hb : BinaryRows rows) :
+    ∃ DT DF,
+      ((∃ r ∈ rows, DT = |tprSpec (groupOf rows r) - tprSpec (slice rows)|) ∧
+        ∀ r ∈ rows, |tprSpec (groupOf rows r) - tprSpec (slice rows)| ≤ DT) ∧
+      ((∃ r ∈ rows, DF = |fprSpec (groupOf rows r) - fprSpec (slice rows)|) ∧
+        ∀ r ∈ rows, |fprSpec (groupOf rows r) - fprSpec (slice rows)| ≤ DF) ∧
+      eodds "equalized_odds_difference" .toOverall agg nsf rows =
+        some (.value (fin (match agg with
+          | .worstCase => max DT DF
+          | .mean => (DT + DF) / 2))) := by
+  obtain ⟨DT, t1, t2, t3⟩ := difference_overall_spec hv (tpr_finiteOn hb)
+  obtain ⟨DF, f1, f2, f3⟩ := difference_overall_spec hv (fpr_finiteOn hb)
+  obtain ⟨a, b, ha, hb', he⟩ := eodds_def "equalized_odds_difference" "difference" "max" .difference
+    (by decide +kernel) (by decide +kernel) .toOverall agg nsf rows hv hb
+  rw [t1] at ha; rw [f1] at hb'
+  injection ha with ha; injection hb' with hb'
+  subst ha; subst hb'
+  refine ⟨DT, DF, ⟨t2, t3⟩, ⟨f2, f3⟩, ?_⟩
+  rw [he]
+  cases agg
+  · simp only [pyFold_max_fin, Option.map_some]
+  · simp only [meanSkip_fin]
+
+theorem minSkip_all_nan (l : List XR) (h : ∀ x ∈ l, x = nan) : minSkip l = nan := by
+  induction l with
+  | nil => rfl
+  | cons x l ih =>
+    have hx := h x (by simp)
+    have := ih (fun y hy => h y (by simp [hy]))
+    simp only [minSkip, List.foldr_cons] at this ⊢
+    rw [this, hx]; rfl
+
+/-- the branch excluded by `ratio_overall_spec` (`ho : overall ≠ 0`): when the overall value and every
+    group value are 0, every quotient is 0/0 and ratio(to_overall) is NaN — replayed on fairlearn:
+    `demographic_parity_ratio([0,1],[0,0],sensitive_features=['a','b'],method='to_overall')` is nan -/
+theorem ratio_overall_nan_of_all_zero {m : Metric} {g : List Dat → Rat} {nsf : Nat} {rows : List (Row Dat)}
+    (hv : Valid nsf rows) (hf : FiniteOn (eval m) g rows) (ho : g (slice rows) = 0)
+    (hz : ∀ r ∈ rows, g (groupOf rows r) = 0) :
+    run m .ratio .toOverall true nsf rows = .value nan := by
+  rw [run_value hv hf, ho]
+  simp only [perStratum, ratioOverallOf, AggregateSpec.ratioOverallAgg, Grouping.apply]
+  congr 1
+  apply minSkip_all_nan
+  intro x hx
+  obtain ⟨v, hvm, rfl⟩ := List.mem_map.mp hx
+  rcases finNan_vals_one hv.nsf_pos hf v hvm with rfl | ⟨q, rfl⟩
+  · rfl
+  · obtain ⟨r, hr, hq⟩ := (group_values hv hf q).mp hvm
+    rw [hq, hz r hr]
+    decide +kernel
+
+/-! ### the whole `_DerivedMetric.__call__`: routing, then the MetricFrame call -/
+
+/-- For a metric that accepts `sample_weight` (in its signature or through `**kwargs`), created with
+    `sample_weight` among the sample parameter names and `method` not among them (the default), the call
+    `dm(y_true, y_pred, sensitive_features=cols, sample_weight=w[, method=s])` IS the MetricFrame
+    construction on the rows weighted by `w`, followed by the transform's aggregate with `method=s`
+    (`Derived.finish`, which `derived_finish_eq` identifies with `Fairness.derived`): the driver op
+    `derived.call` evaluates exactly this function. -/
+theorem derived_call_eq_finish (mi : Derived.MetricInfo) (d : Derived.Made) (w ys ps : List Rat)
+    (cols : List (List Level)) (ms : Option String)
+    (hsig : mi.acceptsAny = true ∨ "sample_weight" ∈ mi.sigParams)
+    (hspn : "sample_weight" ∈ d.spn) (hmeth : "method" ∉ d.spn) :
+    Derived.call mi d (("sample_weight", Derived.KwVal.col w) ::
+        (match ms with | none => [] | some s => [("method", Derived.KwVal.str s)])) ys ps cols =
+      (MetricPool.mkRows 0 ys ps w (ys.map (fun _ => 0)) cols).bind
+        (fun rows => if rows.isEmpty then none
+          else Derived.finish d (ms.map Derived.KwVal.str) cols.length rows) := by
+  have r1 : Derived.route d.spn "sample_weight" = "sample" := by rw [derived_route, if_pos hspn]
+  have r2 : Derived.route d.spn "method" = "transform" := by rw [derived_route, if_neg hmeth, if_pos rfl]
+  have hc : mi.acceptsAny = false → "sample_weight" ∉ mi.sigParams → False := by
+    intro h1 h2
+    rcases hsig with h | h
+    · rw [h] at h1; cases h1
+    · exact h2 h
+  cases ms with
+  | none =>
+    simp [Derived.call, Derived.callWith, DerivedSpec.readsName, Derived.lookupKw, r1]
+    intro h1 h2; exact absurd h2 (fun h2 => hc h1 h2)
+  | some s =>
+    simp [Derived.call, Derived.callWith, DerivedSpec.readsName, Derived.lookupKw, r1, r2]
+    intro h1 h2; exact absurd h2 (fun h2 => hc h1 h2)
+
+-- its hypotheses with the default sample_param_names and the signature of the harness's plain metric
+example : "sample_weight" ∈ DerivedSpec.defaultSampleParamNames ∧ "method" ∉ DerivedSpec.defaultSampleParamNames ∧
+    "sample_weight" ∈ ["sample_weight", "scale"] := by decide +kernel
+
 /-! ### Non-vacuity and regression examples -/
 
 /-- three rows, groups a | b b, weights 2 1 3 (the input of the repaired defect F1:
@@ -675,5 +983,32 @@ example : named "equal_opportunity_difference" .between 1 [⟨⟨2, 1, 1, 0⟩, 
   decide +kernel
 example : generated "roc_auc_score_group_min" .between 1 exF1 = some none := by decide +kernel
 example : generated "accuracy_score_group_min" .between 1 exF1 = some (some (.value (fin (1/4)))) := by decide +kernel
+
+
+/-- seven weighted rows, groups a (3 rows) | b (4 rows), both labels in each group -/
+def exEO : List (Row Dat) :=
+  [⟨⟨1, 1, 1, 0⟩, [], ["a"]⟩, ⟨⟨0, 1, 2, 0⟩, [], ["a"]⟩, ⟨⟨0, 0, 1, 0⟩, [], ["a"]⟩,
+   ⟨⟨1, 1, 1, 0⟩, [], ["b"]⟩, ⟨⟨1, 0, 1, 0⟩, [], ["b"]⟩, ⟨⟨0, 1, 1, 0⟩, [], ["b"]⟩, ⟨⟨0, 0, 3, 0⟩, [], ["b"]⟩]
+
+-- ALL hypotheses of `eodds_ratio_eq_spec` incl. the antecedents `tmx ≠ 0`, `fmx ≠ 0` (exF1 has FPR 0 everywhere):
+-- TPR a = 1, b = 1/2; FPR a = 2/3, b = 1/4; ratios 1/2 and 3/8
+example : Valid 1 exEO ∧ BinaryRows exEO := ⟨⟨by decide, by decide, by decide, by decide +kernel⟩, by decide +kernel⟩
+example : named "equal_opportunity_ratio" .between 1 exEO = some (.value (fin (1/2))) := by decide +kernel
+example : generated "false_positive_rate_ratio" .between 1 exEO = some (some (.value (fin (3/8)))) := by decide +kernel
+example : eodds "equalized_odds_ratio" .between .worstCase 1 exEO = some (.value (fin (3/8))) := by decide +kernel
+example : eodds "equalized_odds_ratio" .between .mean 1 exEO = some (.value (fin (7/16))) := by decide +kernel
+example : eodds "equalized_odds_difference" .toOverall .mean 1 exEO = some (.value (fin (2/7))) := by decide +kernel
+-- `ho` of `dp_ratio_overall_eq_spec` / `ratio_overall_spec`: overall selection rate 1/2 ≠ 0 (groups 3/4 and 1/3)
+example : selRateSpec (slice exEO) = 1/2 := by decide +kernel
+example : named "demographic_parity_ratio" .toOverall 1 exEO = some (.value (fin (2/3))) := by decide +kernel
+-- the excluded branch: overall selection rate 0
+example : named "demographic_parity_ratio" .toOverall 1 [⟨⟨0, 0, 1, 0⟩, [], ["a"]⟩, ⟨⟨1, 0, 1, 0⟩, [], ["b"]⟩] = some (.value nan) := by
+  decide +kernel
+-- hypotheses of `generated_eq_spec` for a group_min / group_max member of the family
+example : ("accuracy_score_group_min", "accuracy_score", "group_min") ∈ generatedNames ∧
+    baseOfName "accuracy_score" = some .accuracy ∧ (specOf .accuracy).isSome = true := by decide +kernel
+example : generated "zero_one_loss_group_max" .between 1 exEO = some (some (.value (fin (1/2)))) := by decide +kernel
+example : generated "mean_squared_error_group_max" .toOverall 1 exEO = some (some (.value (fin (1/2)))) := by decide +kernel
+example : generated "true_negative_rate_difference" .toOverall 1 exEO = some (some (.value (fin (5/21)))) := by decide +kernel
 
 end C03
